@@ -29,8 +29,8 @@ theorem adj_qbb_spec (p : Problem K) (hrows : RowsOK p) (q0 : Nat → Nat → Ex
   unfold qbb
   rw [if_pos ⟨by omega, by have := i.isLt; omega, by omega, by have := j.isLt; omega⟩]
   simp only [Nat.add_sub_cancel]
-  obtain ⟨hndi, hri⟩ := hrows i.val i.isLt
-  obtain ⟨hndj, hrj⟩ := hrows j.val j.isLt
+  have hri := hrows i.val i.isLt
+  have hrj := hrows j.val j.isLt
   let Qf : Nat → Nat → K := fun l c => if h : l < p.n ∧ c < p.n then Q ⟨l, h.1⟩ ⟨c, h.2⟩ else 0
   have hqf : ∀ c1 c2, 1 ≤ c1 → c1 ≤ p.n → 1 ≤ c2 → c2 ≤ p.n → q0 c1 c2 = .ok (Qf (c1 - 1) (c2 - 1)) := by
     intro c1 c2 h1 h2 h3 h4
@@ -67,10 +67,10 @@ theorem adj_qbb_spec (p : Problem K) (hrows : RowsOK p) (q0 : Nat → Nat → Ex
   have hin : ∀ c, (p.rows.getD i.val #[]).toList.foldl (fun (t : K) (ci : Nat × K) => t + ci.2 * Qf (ci.1 - 1) c) 0
       = ∑ l ∈ range p.n, mget p.dense i.val l * Qf l c := by
     intro c
-    rw [← rowDense_dot p.n _ (fun l => Qf l c) hndi hri]
+    rw [← rowDense_dot' p.n _ (fun l => Qf l c) hri]
     exact Finset.sum_congr rfl fun l _ => by rw [mget_dense]
-  have hout := rowDense_dot p.n (p.rows.getD j.val #[]).toList
-    (fun c => ∑ l ∈ range p.n, mget p.dense i.val l * Qf l c) hndj hrj
+  have hout := rowDense_dot' p.n (p.rows.getD j.val #[]).toList
+    (fun c => ∑ l ∈ range p.n, mget p.dense i.val l * Qf l c) hrj
   have e1 : (p.rows.getD j.val #[]).toList.foldl (fun (sum : K) (cj : Nat × K) => sum + cj.2 *
       ((p.rows.getD i.val #[]).toList.foldl (fun (t : K) (ci : Nat × K) => t + ci.2 * Qf (ci.1 - 1) (cj.1 - 1)) 0)) 0
       = (p.rows.getD j.val #[]).toList.foldl (fun (s : K) (cv : Nat × K) => s + cv.2 *
